@@ -62,6 +62,8 @@ partial def decStmt : Sx → Option Stmt
   | .list [.atom "modprint", .str a] => some (.modPrint a)
   | .list [.atom "nameprobe", ns] => do pure (.nameProbe (← decStrs ns))
   | .list [.atom "block", .str b, sc, body] => do pure (.block b (← sc.toBool?) (← decBody body))
+  | .list [.atom "extends", t] => do pure (.extendsT (← decTarget t))
+  | .list [.atom "fail", .str cls] => some (.fail cls)
   | _ => none
 partial def decBody : Sx → Option (List Stmt)
   | .list xs => Sx.mapM? decStmt xs
@@ -81,6 +83,7 @@ def errName : Err → String
   | .undefinedError => "UndefinedError"
   | .syntaxError => "TemplateSyntaxError"
   | .keyError => "KeyError"
+  | .other cls => cls
 
 def shown (v : Val) : String :=
   match v with
@@ -95,7 +98,7 @@ def encOutcome : Except Fail Outcome → Sx
       -- a dict: every exported name once
       .list (o.exports.keys.eraseDups.filterMap fun k => (o.exports.get k).map fun v => .list [.str k, .str (shown v)]),
       .list (o.notes.map Sx.str)]
-  | .error (.err e) => .list [.atom "err", .atom (errName e)]
+  | .error (.err e p) => .list [.atom "err", .atom (errName e), .str p]
   | .error (.oom why) => .list [.atom "oom", .str why]
 
 /-- `(c05-run mode entry envGlobals vars templates)` → `(ok (impl …) (spec …))` -/
@@ -211,7 +214,14 @@ def handleLocals : List Sx → Sx
     | none => Sx.bad
   | _ => Sx.bad
 
+/-- `(c05-guard)` → the try statement the model's `includeStmt` stands for -/
+def handleGuard : List Sx → Sx
+  | _ =>
+    let g := includeGuard
+    Sx.ok (.list [Sx.ofStrs g.guarded, .list (g.handlers.map fun h => .list [.str h.1, Sx.ofStrs h.2]), .str g.renderIn,
+                  Sx.ofBool g.hasFinally])
+
 def handlers : List (String × (List Sx → Sx)) :=
-  [("c05-run", handleRun), ("c05-unit", handleUnit), ("c05-locals", handleLocals)]
+  [("c05-run", handleRun), ("c05-unit", handleUnit), ("c05-locals", handleLocals), ("c05-guard", handleGuard)]
 
 end JinjaV.Wire.CtxFlow
